@@ -1,5 +1,5 @@
 (* C02sim_b -- per-state simulation lemmas (M_tok state method vs S_tok), see Proofs/C02sim.v and C02simtac.v.
-   Each lemma:  R m s -> st m = X -> wk m = true -> covered m = true -> simok s (step_X m). *)
+   Each lemma:  R m s -> st m = X -> wk m = true -> plain m = true -> simok s (step_X m). *)
 From Coq Require Import NArith List Bool Arith Lia ZifyBool ZifyN.
 From Verif Require Import Sx Str.
 From Verif.Gen Require Import Entities Tokenizer.
@@ -9,15 +9,15 @@ From Verif.Proofs Require Import C02a C02dict C08 C02sim C02simtac.
 Import ListNotations.
 Local Open Scope N_scope.
 
-Lemma sim_beforeAttributeValueState : forall m s, R m s -> st m = beforeAttributeValueState -> wk m = true -> covered m = true -> simok s (step_beforeAttributeValueState m).
+Lemma sim_beforeAttributeValueState : forall m s, R m s -> st m = beforeAttributeValueState -> wk m = true -> plain m = true -> simok s (step_beforeAttributeValueState m).
 Proof. sim_state step_beforeAttributeValueState. all: batch_goal_skip. Qed.
 
-Lemma sim_entityDataState : forall m s, R m s -> st m = entityDataState -> wk m = true -> covered m = true -> simok s (step_entityDataState m).
+Lemma sim_entityDataState : forall m s, R m s -> st m = entityDataState -> wk m = true -> plain m = true -> simok s (step_entityDataState m).
 Proof. sim_state step_entityDataState. Qed.
 
-Lemma sim_rawtextEndTagOpenState : forall m s, R m s -> st m = rawtextEndTagOpenState -> wk m = true -> covered m = true -> simok s (step_rawtextEndTagOpenState m).
+Lemma sim_rawtextEndTagOpenState : forall m s, R m s -> st m = rawtextEndTagOpenState -> wk m = true -> plain m = true -> simok s (step_rawtextEndTagOpenState m).
 Proof. sim_state step_rawtextEndTagOpenState. Qed.
 
-Lemma sim_rawtextLessThanSignState : forall m s, R m s -> st m = rawtextLessThanSignState -> wk m = true -> covered m = true -> simok s (step_rawtextLessThanSignState m).
+Lemma sim_rawtextLessThanSignState : forall m s, R m s -> st m = rawtextLessThanSignState -> wk m = true -> plain m = true -> simok s (step_rawtextLessThanSignState m).
 Proof. sim_state step_rawtextLessThanSignState. Qed.
 
